@@ -74,7 +74,7 @@ theorem lanczosLoop_checked_unpurged {k : Nat} {cols : List (List Nat)} (hM : Ma
     by_cases hall : AllProjected st
     · unfold lanczosLoop at hnone
       rcases lanczosStep_checked_ok hM hay hayOK hInv (fun _ _ j hj hnp => absurd (hall j hj) hnp) with
-        ⟨st', hs, hy, hsub⟩ | ⟨st', mk, w, hs, hInv'⟩
+        ⟨st', hs, hy, hsub⟩ | ⟨st', mk, w, hs, hInv', _⟩
       · rw [hs] at hnone
         simp only [] at hnone
         obtain ⟨ayy, hayy, hz⟩ := afterLoop_ok hM hInv hy hsub
